@@ -511,11 +511,12 @@ def run(ck: Ck) -> None:
     ck.assumptions.append('pure-Python tokenizer only; the Cython twin _tokenizer.pyx cannot be built in this sandbox')
     ok_t = ck.translate('EscTables_gen', c02_tables.translate)
     ok_h = translate_hstring(ck)
+    ok_g = U.translate_get_token_trees(ck)
     side = ck.extra.get('translated', {}).get('EscTables_gen', {})
     escalate = bool(side) and any(side.get('digests', {}).get(k) != v for k, v in c02_tables.MODEL_DIGESTS.items())
     if escalate:
         ck.notes.append('hand-modelled tokenizer functions changed since the model was written: correspondence budgets escalated')
-    built = ok_t and ck.build(['Props/C02.vo', 'Text/TokEnum.vo', 'Text/HsGen.vo'])
+    built = ok_t and ck.build(['Props/C02.vo', 'Text/TokEnum.vo', 'Text/HsGen.vo', 'Text/GtGen.vo'])
     if built:
         th = U.theorems_in_background(ck, 'Props/C02.v')
         ck.instance_obligations(U.IMPORTS, {
@@ -537,6 +538,7 @@ def run(ck: Ck) -> None:
             'operators_name_known_tokens': 'operators_all_known',
         })
         handle_string_table(ck, ok_h)
+        U.get_token_tree_obligations(ck, ok_g)
         model_counterexamples(ck)
         corr_codepoints(ck)
         corr_escape_strings(ck, escalate)
